@@ -56,7 +56,14 @@ MANIFEST = dict(
         "default batch size) under ASan/UBSan (thorough tier exhaustive over (n, k, batch size incl. 0) for n <= 30), plus an independent in-harness "
         "oracle: training indices = complement, validation/training elements = the batches of the dataset they name, disjointness, cover, pairing, "
         "fold sizes, class balance, per-fold batch count / batch sizes (ceil, <= max, differ by <= 1), requested fold, recreation indices, shapes, "
-        "repeated access, weights stay with their elements. A third harness binary built WITHOUT NDEBUG runs the corpus and a sample of the "
+        "repeated access, weights stay with their elements. INCOMING BATCH LAYOUT: a quarter of the histories first bring the dataset variable "
+        "into an arbitrary batch layout (ops data / repart / splitat / splice with keep-head, keep-tail, append variants: random compositions, "
+        "single batch, all-singleton batches, splitAtElement / splice / append results, layouts with exactly the target number of batches but "
+        "other sizes or the target sizes rotated, layouts left by earlier CV constructions and re-cut; some with 300-1100 elements and the "
+        "default batch size) and then call a construction function on it; all clause oracles above apply to every construction (first call, "
+        "`again`, `nest`), plus an independent second-code-path oracle inside the harness (exact, no tolerance): for createCVIndexed / "
+        "FullyIndexed / IID / SameSize / SameSizeBalanced the same call with the same seed on a copy of the elements in the fresh "
+        "createLabeledDataFromRange layout must give the same reorganised dataset and validation index sets. A third harness binary built WITHOUT NDEBUG runs the corpus and a sample of the "
         "histories with the assertions of the real code (SIZE_CHECK / SHARK_ASSERT / RANGE_CHECK) active."),
   note=TRUST + "modelling shortcut: subBatch's gather is modelled as picking the elements before the dealing loop runs; for well-formed datasets, "
        "existing positions and fold numbers below k this is proved equal to dealing the positions and gathering every completed batch "
@@ -73,7 +80,8 @@ MANIFEST = dict(
 
 FINISH = dict(level="proof",
               rule="histories = one fold-construction call (function, fold count, max batch size incl. 0, initial batching, labels, index vectors, seed) "
-                   "followed by 0-4 CVFolds operations / further constructions / nested constructions, all from one SplitMix64 stream; thorough tier "
+                   "followed by 0-4 CVFolds operations / further constructions / nested constructions / re-layouts of the dataset variable, or (1 in 4) a "
+                   "layout history = dataset + 1-3 layout ops (repartition / splitAtElement / splice / append) + construction + 0-2 follow-ups, all from one SplitMix64 stream; thorough tier "
                    "additionally all (n, k, batch size) with n <= 30 for samesize/balanced/indexed; non-trivial = a construction with at least 2 folds "
                    "and n not divisible by k or by the batch size; distinct = distinct op text")
 
